@@ -86,6 +86,9 @@ func Inventory(dir string) ([]string, error) {
 			for _, d := range f.Decls {
 				if fd, ok := d.(*ast.FuncDecl); ok {
 					keys = append(keys, FuncKey(p.PkgPath, fd))
+					for _, cd := range closureDefs(p, fd) {
+						keys = append(keys, cd.key)
+					}
 				}
 			}
 		}
@@ -112,10 +115,71 @@ func readInventory(path string) (map[string]bool, error) {
 }
 
 type newFunc struct {
-	key  string
-	pkg  *packages.Package
-	decl *ast.FuncDecl
-	obj  *types.Func
+	key     string
+	pkg     *packages.Package
+	decl    *ast.FuncDecl // for a closure: synthetic (Name = the variable's identifier, Type/Body = the literal's)
+	obj     types.Object
+	closure bool
+	defStmt ast.Stmt // closure: the statement that defines the variable
+}
+
+// closureDefs: `name := func(...) {...}` statements of fd whose variable is only ever called.
+func closureDefs(p *packages.Package, fd *ast.FuncDecl) []*newFunc {
+	var out []*newFunc
+	if fd.Body == nil {
+		return nil
+	}
+	ast.Inspect(fd.Body, func(n ast.Node) bool {
+		as, ok := n.(*ast.AssignStmt)
+		if !ok || as.Tok != token.DEFINE || len(as.Lhs) != 1 || len(as.Rhs) != 1 {
+			return true
+		}
+		id, ok := as.Lhs[0].(*ast.Ident)
+		lit, ok2 := as.Rhs[0].(*ast.FuncLit)
+		if !ok || !ok2 || id.Name == "_" {
+			return true
+		}
+		obj := p.TypesInfo.Defs[id]
+		if obj == nil {
+			return true
+		}
+		// every use is the function of a direct call; no reassignment; not recursive
+		onlyCalled := true
+		uses := 0
+		var stack []ast.Node
+		ast.Inspect(fd.Body, func(m ast.Node) bool {
+			if m == nil {
+				stack = stack[:len(stack)-1]
+				return true
+			}
+			stack = append(stack, m)
+			u, isId := m.(*ast.Ident)
+			if !isId || p.TypesInfo.Uses[u] != obj {
+				return true
+			}
+			parent := stack[len(stack)-2]
+			if as2, isAs := parent.(*ast.AssignStmt); isAs && len(as2.Lhs) == 1 && len(as2.Rhs) == 1 {
+				if b, isB := as2.Lhs[0].(*ast.Ident); isB && b.Name == "_" {
+					return true // `_ = name`: the keep-alive the normaliser itself inserts
+				}
+			}
+			uses++
+			call, isCall := parent.(*ast.CallExpr)
+			if !isCall || ast.Unparen(call.Fun) != ast.Expr(u) {
+				onlyCalled = false
+			}
+			if u.Pos() >= lit.Pos() && u.End() <= lit.End() {
+				onlyCalled = false // recursive
+			}
+			return true
+		})
+		if !onlyCalled || uses == 0 {
+			return true
+		}
+		out = append(out, &newFunc{key: FuncKey(p.PkgPath, fd) + "$" + id.Name, pkg: p, decl: &ast.FuncDecl{Name: id, Type: lit.Type, Body: lit.Body}, obj: obj, closure: true, defStmt: as})
+		return true
+	})
+	return out
 }
 
 // findNew: unexported functions with bodies that the inventory does not know and that do not call themselves.
@@ -125,6 +189,13 @@ func findNew(pkgs []*packages.Package, inv map[string]bool) []*newFunc {
 		for _, f := range p.Syntax {
 			for _, d := range f.Decls {
 				fd, ok := d.(*ast.FuncDecl)
+				if ok && fd.Body != nil {
+					for _, cd := range closureDefs(p, fd) {
+						if !inv[cd.key] {
+							out = append(out, cd)
+						}
+					}
+				}
 				if !ok || fd.Body == nil || fd.Name.IsExported() || fd.Name.Name == "init" || fd.Name.Name == "_" {
 					continue
 				}
@@ -149,7 +220,7 @@ func findNew(pkgs []*packages.Package, inv map[string]bool) []*newFunc {
 				if recursive {
 					continue
 				}
-				out = append(out, &newFunc{key, p, fd, obj})
+				out = append(out, &newFunc{key: key, pkg: p, decl: fd, obj: obj})
 			}
 		}
 	}
@@ -188,7 +259,9 @@ func Normalize(dir, inventoryPath string) (out string, notes []string, cleanup f
 		content []byte
 		site    string
 		key     string
+		method  string
 	}
+	forceSplice := map[string]bool{} // sites where the x/tools inliner's output did not type-check
 	var last *undo
 	seq := 0
 	for round := 0; round < 80; round++ {
@@ -201,15 +274,19 @@ func Normalize(dir, inventoryPath string) (out string, notes []string, cleanup f
 			if werr := os.WriteFile(last.file, last.content, 0o644); werr != nil {
 				return dir, nil, cleanup, werr
 			}
-			gaveUp[last.site] = true
 			inlined[last.key]--
-			failed = append(failed, fmt.Sprintf("%s (inlined form did not type-check: %v)", last.key, err))
+			if last.method == "xtools" && !forceSplice[last.site] {
+				forceSplice[last.site] = true // try the statement-level splice instead
+			} else {
+				gaveUp[last.site] = true
+				failed = append(failed, fmt.Sprintf("%s (inlined form did not type-check: %v)", last.key, err))
+			}
 			last = nil
 			continue
 		}
 		last = nil
 		news := findNew(pkgs, inv)
-		byObj := map[*types.Func]*newFunc{}
+		byObj := map[types.Object]*newFunc{}
 		for _, nf := range news {
 			byObj[nf.obj] = nf
 		}
@@ -241,15 +318,14 @@ func Normalize(dir, inventoryPath string) (out string, notes []string, cleanup f
 					if id == nil || !id.Pos().IsValid() {
 						return true
 					}
-					fobj, _ := p.TypesInfo.Uses[id].(*types.Func)
-					nf := byObj[fobj]
+					nf := byObj[p.TypesInfo.Uses[id]]
 					if nf == nil {
 						return true
 					}
 					// calls inside the new functions themselves are handled once those are inlined into known code
 					for _, anc := range stack {
 						if fd, isFD := anc.(*ast.FuncDecl); isFD {
-							if o, _ := p.TypesInfo.Defs[fd.Name].(*types.Func); o != nil && byObj[o] != nil {
+							if o := p.TypesInfo.Defs[fd.Name]; o != nil && byObj[o] != nil {
 								return true
 							}
 						}
@@ -298,10 +374,11 @@ func Normalize(dir, inventoryPath string) (out string, notes []string, cleanup f
 				logf := func(string, ...any) {}
 				var newContent []byte
 				why := ""
+				method := "splice"
 				if inGo {
 					seq++
 					sc := &spliceCtx{fset: p.Fset, callerPkg: p.Types, callerInfo: p.TypesInfo, callerFile: f, callerSrc: content,
-						calleeDecl: tnf.decl, calleeInfo: tnf.pkg.TypesInfo, calleeSrc: calleeContent, calleeFile: calleeFile, seq: seq}
+						calleeDecl: tnf.decl, calleeInfo: tnf.pkg.TypesInfo, calleeSrc: calleeContent, calleeFile: calleeFile, seq: seq, closure: tnf.closure}
 					if out, err := sc.spliceGo(target); err != nil {
 						why = err.Error()
 					} else {
@@ -310,6 +387,10 @@ func Normalize(dir, inventoryPath string) (out string, notes []string, cleanup f
 				}
 				if newContent != nil {
 					// done
+				} else if tnf.closure {
+					why = "local closure"
+				} else if forceSplice[tsite] {
+					why = "x/tools output did not type-check"
 				} else if callee, err := inline.AnalyzeCallee(logf, tnf.pkg.Fset, tnf.pkg.Types, tnf.pkg.TypesInfo, tnf.decl, calleeContent); err != nil {
 					why = err.Error()
 				} else if res, err := inline.Inline(&inline.Caller{Fset: p.Fset, Types: p.Types, Info: p.TypesInfo, File: f, Call: target, Content: content}, callee, &inline.Options{Logf: logf}); err != nil {
@@ -318,11 +399,12 @@ func Normalize(dir, inventoryPath string) (out string, notes []string, cleanup f
 					why = "needs a function literal"
 				} else {
 					newContent = res.Content
+					method = "xtools"
 				}
 				if newContent == nil {
 					seq++
 					sc := &spliceCtx{fset: p.Fset, callerPkg: p.Types, callerInfo: p.TypesInfo, callerFile: f, callerSrc: content,
-						calleeDecl: tnf.decl, calleeInfo: tnf.pkg.TypesInfo, calleeSrc: calleeContent, calleeFile: calleeFile, seq: seq}
+						calleeDecl: tnf.decl, calleeInfo: tnf.pkg.TypesInfo, calleeSrc: calleeContent, calleeFile: calleeFile, seq: seq, closure: tnf.closure}
 					if out, err := sc.splice(target); err != nil {
 						why += "; " + err.Error()
 					} else {
@@ -335,10 +417,19 @@ func Normalize(dir, inventoryPath string) (out string, notes []string, cleanup f
 					progress = true // look for the next site
 					break search
 				}
+				if tnf.closure && tnf.defStmt != nil {
+					// the variable may lose its last use: keep it referenced (inserted after the edit point is computed,
+					// at the end of the defining statement, which precedes every call)
+					off := p.Fset.Position(tnf.defStmt.End()).Offset
+					marker := "; _ = " + tnf.decl.Name.Name
+					if off <= len(content) && !strings.Contains(string(newContent[:min(len(newContent), off+len(marker)+2)]), marker) {
+						newContent = []byte(string(newContent[:off]) + marker + string(newContent[off:]))
+					}
+				}
 				if err := os.WriteFile(filename, newContent, 0o644); err != nil {
 					return dir, nil, cleanup, err
 				}
-				last = &undo{filename, content, tsite, tnf.key}
+				last = &undo{filename, content, tsite, tnf.key, method}
 				inlined[tnf.key]++
 				progress = true
 				break search
